@@ -226,6 +226,7 @@ def run(ctx, per_db_quick=130, per_db_thorough=600):
 
         ex = ThreadPoolExecutor(max_workers=14)
         slowest = 0.0
+        hangs = 0
         results = ex.map(one, enumerate(jobs))
         # (results are judged as they arrive, so that an interrupted search keeps what it found; when the search
         # budget's alarm interrupts the wait the jobs still queued are not started)
@@ -239,6 +240,12 @@ def run(ctx, per_db_quick=130, per_db_thorough=600):
             if impl.get("timeout"):
                 ctx.branch("impl:timeout")
                 ctx.oracle_fail("hang", f"processing a damaged file did not finish within {limit:.0f} s", case, "timeout", f"<= {limit:.0f} s")
+                hangs += 1
+                if hangs >= 3:
+                    # three workers ran into their time limit: that decides the run; the copies still queued are not started
+                    C.keep_failing_files(ctx, n0, p, wal)
+                    ctx.notes.append("stopped after three time-outs")
+                    break
             elif impl.get("crashed"):
                 ctx.branch("impl:crashed")
                 ctx.oracle_fail("crash", f"the interpreter died (exit code {impl.get('exitcode')}) on a damaged file", case, "crash", "result or exception")
